@@ -20,15 +20,19 @@ from mc import c18_lines as L
 ID = "C18"
 LEVEL = "model_checking"
 EXHAUSTIVE = True
-RULE = ("lines = every shape (head x indentation x separator x item pattern up "
-        "to the tier's depth x tail) x every item count whose line is 38..202 "
-        "characters long; each line x every limit of the tier with "
-        "-2 <= len(line)-limit <= window. A (line, limit) pair is non-trivial "
-        "when len(line) > limit (the limiter has to act); all pairs are distinct "
-        "(distinct line text or distinct limit)")
+RULE = ("texts = every shape (head x indentation x separator x item pattern up "
+        "to the tier's depth x tail) x every item count whose (first) line is "
+        "38..202 characters long; tail t3 gives a two-line text (statement or "
+        "directive already continued with '&'); each text x every limit of the "
+        "tier with -2 <= longest line - limit <= window. A (text, limit) pair is "
+        "non-trivial when its longest line exceeds the limit (the limiter has "
+        "to act); all pairs are distinct (distinct text or distinct limit). "
+        "Violations are recorded at most 2 per signature and work item; the "
+        "full counts are in outcome_classes")
 ASSUMPTIONS = [
-    "a line is judged on its own (process() treats lines independently); the "
-    "enumerated lines are complete statements, directives or comments",
+    "the enumerated texts are complete statements, directives or comments "
+    "(one line, or two lines when already continued); directives carry no "
+    "trailing comment (not in the property's list of line kinds)",
     "a clean InternalError 'No suitable break point found' is an allowed refusal "
     "only when NO placement of breaks after the documented break strings of the "
     "line's class (with or without its indentation) makes the line fit; any "
